@@ -441,64 +441,72 @@ pub fn plan(property: &str, tier: Tier, seed: u64) -> Option<Plan> {
     ];
     let (units, rule): (Vec<Unit>, String) = match property {
         "C01" => (
-            hist_units("C01", "batch", tier.pick(1500, 15000), 256, seed, any_spec, true),
+            {
+                let mut u = hist_units("C01", "batch", tier.pick(6000, 30000), 256, seed, any_spec, true);
+                u.push(crate::engines::exotic::unit("C01", tier.pick(10000, 50000), seed));
+                u
+            },
             format!("{GEN_RULE}the history pushes at least one value (any form) and reads it back with every accessor (len, is_empty, get(i), iteration, cloned iteration, into_owned)."),
         ),
         "C02" => {
-            let mut u = hist_units("C02", "hist", tier.pick(1000, 8000), 640, seed, any_spec, false);
-            u.extend(hist_units("C02", "long", tier.pick(60, 500), 3000, seed, any_spec, false));
+            let mut u = hist_units("C02", "hist", tier.pick(3000, 15000), 640, seed, any_spec, false);
+            u.extend(hist_units("C02", "long", tier.pick(150, 800), 3000, seed, any_spec, false));
             u.extend(exh_units("C02", tier.pick(4, 5), 3, tiny_domain, false, false));
             (u, format!("{GEN_RULE}at least two pushes, and after the first push some later step caused internal growth (a reported capacity changed), a deduplicated push, or a reservation on a populated region; all earlier indices are re-read after every step."))
         }
         "C04" => (
             {
-                let mut u = hist_units("C04", "hist", tier.pick(1500, 12000), 640, seed, stringy, true);
+                let mut u = hist_units("C04", "hist", tier.pick(5000, 25000), 640, seed, stringy, true);
                 u.push(crate::engines::scan::c04_unit("/repo/src"));
                 u
             },
             format!("{GEN_RULE}at least two stored strings with multi-byte scalars were re-validated (from_utf8 on the bytes of every &str reachable from any read item) after every step. Static half (exhaustive over the program text, not generated): every `impl Push<X> for StringRegion` header in /repo/src must have X among String, &String, &str, &&str; every `unsafe` token is listed in the evidence."),
         ),
         "C08" => {
-            let mut u = hist_units("C08", "hist", tier.pick(1000, 8000), 640, seed, any_spec, false);
+            let mut u = hist_units("C08", "hist", tier.pick(3000, 15000), 640, seed, any_spec, false);
             u.extend(exh_units("C08", tier.pick(4, 5), 3, tiny_domain, false, false));
             (u, format!("{GEN_RULE}some slot is pushed to, cleared while populated, and pushed to again; the post-clear indices must equal the reference model's prediction for a default region and those of a twin universe that replaced clear() by Default::default()."))
         }
         "C09" => (
-            hist_units("C09", "hist", tier.pick(1000, 8000), 640, seed, clonable, false),
+            hist_units("C09", "hist", tier.pick(3000, 15000), 640, seed, clonable, false),
             format!("{GEN_RULE}a populated region is cloned (or clone_from'ed into a longer/shorter destination) and at least two pushes happen; both copies are checked against their own models after every step, indices against the prediction model, and clone_from against a twin that used clone."),
         ),
         "C10" => (
-            hist_units("C10", "hist", tier.pick(1000, 8000), 640, seed, any_spec, false),
+            hist_units("C10", "hist", tier.pick(3000, 15000), 640, seed, any_spec, false),
             format!("{GEN_RULE}a reserve_items / reserve_regions with a non-empty argument or a merge_regions is followed by a push into that slot; indices must equal the prediction for an unreserved default region and those of a twin universe without any reserve call."),
         ),
         "C11" => {
-            let mut u = hist_units("C11", "hist", tier.pick(2000, 15000), 640, seed, collapsing, true);
+            let mut u = hist_units("C11", "hist", tier.pick(6000, 30000), 640, seed, collapsing, true);
             u.extend(exh_units("C11", tier.pick(5, 6), 3, tiny_collapsing, true, true));
             (u, format!("{GEN_RULE}at least one push collapsed into its predecessor and at least one did not; a collapsing push must return the previous index and leave Σused unchanged, any other push must read back its own value."))
         }
         "C12" => {
-            let mut u = hist_units("C12", "hist", tier.pick(1500, 12000), 640, seed, dense, true);
+            let mut u = hist_units("C12", "hist", tier.pick(6000, 30000), 640, seed, dense, true);
             u.extend(exh_units("C12", tier.pick(5, 6), 4, tiny_dense, false, false));
             (u, format!("{GEN_RULE}at least three pushes; the k-th push since creation/merge/clear must return k and index k must read the k-th value with exactly its own length."))
         }
         "C13" => (
-            hist_units("C13", "hist", tier.pick(250, 2500), 256, seed, slicy, true),
+            hist_units("C13", "hist", tier.pick(400, 3000), 256, seed, slicy, true),
             format!("{GEN_RULE}some slice/row item that has a successor in its region was probed at position len (and len+1, len+2, len+7, usize::MAX) in the region-backed and the owned-borrowed representation; returning any value is the violation."),
         ),
         "C16" => (
-            hist_units("C16", "hist", tier.pick(1000, 8000), 640, seed, serdeable, false),
+            hist_units("C16", "hist", tier.pick(3000, 15000), 640, seed, serdeable, false),
             format!("{GEN_RULE}a populated region is replaced by from_str(to_string(region)) (serde_json) and later pushed to; reads, returned indices and Σused must equal the prediction and a twin universe that never serialised."),
         ),
         "C18" => (
-            hist_units("C18", "hist", tier.pick(1500, 12000), 640, seed, heapy, false),
+            hist_units("C18", "hist", tier.pick(4000, 20000), 640, seed, heapy, false),
             format!("{GEN_RULE}at least two pushes; after every step used<=capacity per pair, Σused within the model's [payload+index lower bound, upper bound], monotone on push, and the clear rule."),
         ),
         "C20" => (
-            hist_units("C20", "hist", tier.pick(1500, 12000), 384, seed, any_spec, true),
-            format!("{GEN_RULE}at least two pushes that use two different non-canonical input forms; indices and Σused must equal those of a twin universe fed the canonical form (&Owned)."),
+            {
+                let mut u = hist_units("C20", "hist", tier.pick(5000, 25000), 384, seed, any_spec, true);
+                u.push(crate::engines::exotic::unit("C20", tier.pick(20000, 100000), seed));
+                u
+            },
+            format!("{GEN_RULE}at least two pushes that use two different non-canonical input forms; indices and Σused must equal those of a twin universe fed the canonical form (&Owned). Plus a concrete-type unit for forms that reach a child's &&T / array / iterator impls through a parent (Vec<&str>, &[&str], [&str;N], &[&[u8]], Vec<PushIter<_>>, &[&u8], (&str,&u8), Option<&&str>, Result<&str,&&[u8]>, PushIter<slice::Iter<String>> ...): every form is pushed onto its own region rebuilt to the same state and must return the same index, store the same number of bytes and read back the value."),
         ),
         "C03" => (
-            crate::engines::stack::units("C03", tier.pick(1500, 12000), seed),
+            crate::engines::stack::units("C03", tier.pick(4000, 20000), seed),
             "FlatStack histories: proptest tapes decoded into copy (any form) / extend and from_iter (iterators whose size_hint lower bound is 0, half or all of the true length) / with_capacity / reserve / reserve_items / reserve_regions / clear / clone / clone_from / merge_capacity / serde operations over two stacks of one (region composition, index container) pair; after every step both stacks are compared with a Vec of owned values: len, is_empty, get(i) for all i with the deep read oracle, iteration order, size_hint validity at every position (exactness for the vector index container), a cloned iterator taken mid-way, (&stack).into_iter(), and get(i) for i in {len, len+1, len+7, usize::MAX} must panic. Non-trivial: at least three copied elements, at least two of them distinct.".to_string(),
         ),
         "C06" => (
@@ -510,7 +518,7 @@ pub fn plan(property: &str, tier: Tier, seed: u64) -> Option<Plan> {
             "Dictionary-coded regions. A case = up to 60 operations over four CodecRegion<DictionaryCodec> slots: push / push n copies / push n distinct strings (up to 1430, crossing the heavy-hitter summary's compaction at 1024) / merge_regions from 0..3 arbitrary slots (repeats and the target's own ancestors allowed, any number of generations) / clear. Strings: empty, pool re-use, prefixes and extensions of pool entries, single small bytes (the first tags that get assigned), strings starting with a small byte or 254/255, random bytes of length 1..20. Oracles against a reference model of the source statistics: every push that returns reads back exactly its bytes, now and after every later operation; a push may panic (refusal) only if the region is merged, the string is non-empty and its first byte does not occur in the source statistics; stored bytes per push (delta of the used bytes reported by heap_size) never exceed the length, equal the length on default/cleared regions, and equal 1 for strings that certainly dominate (exact regime, <= 500 distinct strings: fewer than F other non-empty strings have a count >= theirs, F = number of unobserved first bytes; lossy regime: the string holds >= 3/4 of every source's pushes); a merged region starts empty. After a permitted refusal the region is rebuilt from its recipe. Non-trivial: the case stored at least one dictionary hit (1 byte for a longer string) and at least one literal in a merged region.".to_string(),
         ),
         "C14" => (
-            crate::engines::laws::units("C14", tier.pick(2000, 15000), seed),
+            crate::engines::laws::units("C14", tier.pick(6000, 30000), seed),
             "IntoOwned laws on every catalogued composition: a case = a source region holding 1..5 generated values, a chosen item x, an arbitrary generated prior value t for the clone_onto target (re-using one of the items a quarter of the time), and a destination region with 0..3 prior items. Checked: into_owned(x) equals the pushed value; borrow_as(&into_owned(x)) passes the deep read oracle (len, get, iteration, into_owned); reborrow(x) passes it; clone_onto from the region-backed and from the owned-borrowed item leaves t equal to the pushed value whatever t held; pushing x and borrow_as(&owned) into the destination region yields an item that passes the deep oracle, leaves the destination's earlier items and the source unchanged. Non-trivial: the prior target value differs from the item's value (longer/shorter/other variant).".to_string(),
         ),
         "C15" => (
@@ -532,18 +540,28 @@ pub fn plan(property: &str, tier: Tier, seed: u64) -> Option<Plan> {
         _ => return None,
     };
     let (mut units, mut rule) = (units, rule);
-    if matches!(property, "C08" | "C09" | "C10" | "C13" | "C16" | "C18" | "C19") {
+    if matches!(property, "C02" | "C08" | "C09" | "C10" | "C13" | "C16" | "C18" | "C19") {
         let (sp, n): (&'static str, u32) = match property {
-            "C08" => ("C08", tier.pick(600, 5000)),
-            "C09" => ("C09", tier.pick(600, 5000)),
-            "C10" => ("C10", tier.pick(600, 5000)),
+            "C02" => ("C02", tier.pick(1500, 8000)),
+            "C08" => ("C08", tier.pick(1500, 8000)),
+            "C09" => ("C09", tier.pick(1500, 8000)),
+            "C10" => ("C10", tier.pick(1500, 8000)),
             "C13" => ("C13", tier.pick(150, 1500)),
-            "C16" => ("C16", tier.pick(600, 5000)),
-            "C18" => ("C18", tier.pick(600, 5000)),
-            _ => ("C19", tier.pick(600, 5000)),
+            "C16" => ("C16", tier.pick(1500, 8000)),
+            "C18" => ("C18", tier.pick(1500, 8000)),
+            _ => ("C19", tier.pick(1500, 8000)),
         };
         units.extend(crate::engines::stack::units(sp, n, seed));
         rule.push_str(" FlatStack clause: the same property is exercised on FlatStack<region, index container> histories (copy/extend/from_iter/with_capacity/reserve/clear/clone/clone_from/merge_capacity/serde over two stacks) against a Vec of owned values, with the index container's share of heap_size (its trailing (used,capacity) pairs) compared with the documented cost of the predicted index sequence.");
+    }
+    if property == "C16" {
+        use crate::engines::index::{random_unit, IL};
+        use flatcontainer::impls::index::{IndexOptimized, Stride};
+        let n = tier.pick(3000, 20000);
+        units.push(random_unit::<Stride>("C16", n, 2000, seed, false));
+        units.push(random_unit::<IndexOptimized>("C16", n, 2000, seed, false));
+        units.push(random_unit::<IL>("C16", n, 2000, seed, false));
+        rule.push_str(" Index containers alone (Stride, IndexOptimized, IndexList): random op lists with serde round trips at arbitrary points; the deserialised container must have the same Debug fingerprint and keep agreeing with the Vec<usize> reference under the continuation.");
     }
     if q {
         assumptions.push("quick tier: fixed case counts per composition (not time-boxed)".into());
